@@ -28,14 +28,52 @@ func MuUnlock(site int, m *sync.Mutex) {
 	}
 }
 
+// Go's RWMutex prefers writers: once a writer waits in Lock, readers that arrive later block until it has had
+// its turn. Tasks never block inside the real mutex here, so the pending writers are tracked explicitly.
+var pendingWriters []uintptr
+
+//go:norace
+func writerPending(addr uintptr) bool {
+	for _, a := range pendingWriters {
+		if a == addr {
+			return true
+		}
+	}
+	return false
+}
+
+//go:norace
+func dropPendingWriter(addr uintptr) {
+	for i, a := range pendingWriters {
+		if a == addr {
+			pendingWriters = append(pendingWriters[:i], pendingWriters[i+1:]...)
+			return
+		}
+	}
+}
+
 //go:norace
 func RWLock(site int, m *sync.RWMutex) {
 	s := cur
-	if s == nil {
+	if s == nil || s.me() == nil {
 		m.Lock()
 		return
 	}
-	s.lockLoop(site, uintptr(unsafe.Pointer(m)), m.TryLock, m.Lock)
+	addr := uintptr(unsafe.Pointer(m))
+	announced := false
+	s.lockLoop(site, addr, func() bool {
+		if m.TryLock() {
+			if announced {
+				dropPendingWriter(addr)
+			}
+			return true
+		}
+		if !announced {
+			announced = true
+			pendingWriters = append(pendingWriters, addr)
+		}
+		return false
+	}, m.Lock)
 }
 
 //go:norace
@@ -53,7 +91,8 @@ func RWRLock(site int, m *sync.RWMutex) {
 		m.RLock()
 		return
 	}
-	s.lockLoop(site, uintptr(unsafe.Pointer(m)), m.TryRLock, m.RLock)
+	addr := uintptr(unsafe.Pointer(m))
+	s.lockLoop(site, addr, func() bool { return !writerPending(addr) && m.TryRLock() }, m.RLock)
 }
 
 //go:norace
